@@ -1,6 +1,7 @@
 package updates
 
 import (
+	"math"
 	"reflect"
 
 	"github.com/ovn-org/libovsdb/ovsdb"
@@ -55,6 +56,44 @@ func mutate(current interface{}, mutator ovsdb.Mutator, value interface{}) (inte
 		return new, new
 	}
 	return current, value
+}
+
+// overflows reports whether an arithmetic mutation of an integer, or of an
+// element of a set of integers, has a result that is not an integer of the
+// same size
+func overflows(current interface{}, mutator ovsdb.Mutator, value interface{}) bool {
+	v, ok := value.(int)
+	if !ok {
+		return false
+	}
+	var is []int
+	switch c := current.(type) {
+	case int:
+		is = []int{c}
+	case []int:
+		is = c
+	}
+	for _, i := range is {
+		switch mutator {
+		case ovsdb.MutateOperationAdd:
+			if (v > 0 && i > math.MaxInt-v) || (v < 0 && i < math.MinInt-v) {
+				return true
+			}
+		case ovsdb.MutateOperationSubtract:
+			if (v < 0 && i > math.MaxInt+v) || (v > 0 && i < math.MinInt+v) {
+				return true
+			}
+		case ovsdb.MutateOperationMultiply:
+			if i != 0 && v != 0 && (i*v/v != i || (i == -1 && v == math.MinInt) || (v == -1 && i == math.MinInt)) {
+				return true
+			}
+		case ovsdb.MutateOperationDivide:
+			if i == math.MinInt && v == -1 {
+				return true
+			}
+		}
+	}
+	return false
 }
 
 func mutateInsert(current, value interface{}) (interface{}, interface{}) {
